@@ -85,8 +85,13 @@ def profile_ids(draw):
 
 @st.composite
 def profile_unrepresentable(draw):
-    k = draw(st.sampled_from(["longname", "longname_dir", "major", "minor", "hl_dir", "hl_missing", "hl_cycle"]))
+    k = draw(st.sampled_from(["longname", "longname_dir", "major", "minor", "hl_dir", "hl_missing", "hl_cycle", "xattr_key"]))
     nodes = [_dir(b"d"), _file(b"d/f", ("lit", b"abc"))]
+    if k == "xattr_key":
+        # (given through the xattr file; the longest representable name is 65535 bytes behind the prefix)
+        ln = draw(st.sampled_from([65535, 65536, 65537, 70000, 131072 + 5]))
+        return dict(kind=k if ln > 65535 else "xattr_key_max", nodes=nodes + [_file(b"p", ("lit", b"p"))],
+                    xattr_file=[(b"d/f", {b"user." + b"k" * ln: b"v"}), (b"p", {b"user.after": b"w"})])
     if k == "longname":
         nodes.append(_file(b"d/" + b"n" * draw(st.sampled_from([257, 300, 1000, 65536, 70000])), ("lit", b"q")))
     elif k == "longname_dir":
@@ -180,6 +185,8 @@ def cases(draw, tier="quick", force_sel=None):
             case["nodes"] = u["nodes"]
             case["mode"] = "file"
             case["unrep_kind"] = u["kind"]
+            if u.get("xattr_file"):
+                case["xattr_file"] = u["xattr_file"]
         if case["mode"] == "file":
             o.setdefault("quote_all", False)
             o.setdefault("loc_style", 0)
